@@ -306,13 +306,13 @@ class Gen:
         if k == "seq":
             return ("seq", r.choice(["tuple", "list"]), [e() for _ in range(r.randrange(1, 4))])
         if k == "call":
-            return ("call", self.leaf(bound) if self.core else e(), [e() for _ in range(r.randrange(0, 3))])
+            return ("call", self.leaf(bound) if self.core else self.callee(d - 1, bound), [e() for _ in range(r.randrange(0, 3))])
         if k == "mcall":
             return ("mcall", e(), r.choice(ATTRS), [e() for _ in range(r.randrange(0, 3))])
         if k == "kwcall":
-            return ("kwcall", e(), [e() for _ in range(r.randrange(0, 2))], [("k%d" % i, e()) for i in range(r.randrange(1, 3))])
+            return ("kwcall", self.callee(d - 1, bound), [e() for _ in range(r.randrange(0, 2))], [("k%d" % i, e()) for i in range(r.randrange(1, 3))])
         if k == "starcall":
-            return ("starcall", e(), [e() for _ in range(r.randrange(0, 2))], e(), r.random() < 0.3)
+            return ("starcall", self.callee(d - 1, bound), [e() for _ in range(r.randrange(0, 2))], e(), r.random() < 0.3)
         if k == "cond":
             return ("cond", e(), e(), e())
         if k in ("and", "or"):
@@ -330,7 +330,9 @@ class Gen:
             cond = self.expr(d - 2, b2) if r.random() < 0.4 else None
             return (k, r.choice(["list", "set"]), v, e(), body, cond)
         if k == "fstr":
-            return ("fstr", [e() for _ in range(r.randrange(1, 3))], r.choice(["", "!s", ":>4"]))
+            ops = [self.leaf(bound) if r.random() < 0.5 else ("op", "." + r.choice(ATTRS), [self.leaf(bound)])
+                   for _ in range(r.randrange(1, 3))]
+            return ("fstr", ops, r.choice(["", "!s", ":>4"]))
         if k == "in":
             return ("in", r.random() < 0.5, e(), e())
         if k == "chain":
@@ -338,6 +340,12 @@ class Gen:
         if k == "slice":
             return ("slice", e(), e(), e())
         raise ValueError(k)
+
+    def callee(self, d, bound):
+        while True:
+            f = self.expr(d, bound)
+            if f[0] not in NOCALL and not (f[0] == "op" and f[1] in ("<", "<=", ">", ">=", "==", "!=")):
+                return f
 
     def newloc(self):
         self.nloc += 1
@@ -351,7 +359,7 @@ class Gen:
         for _ in range(n if n is not None else r.randrange(1, 4)):
             s, bound = self.stmt(d, bound, inloop)
             out.append(s)
-            if s[0] in ("ret", "break", "continue", "raise"):
+            if terminates(s):
                 break
         return out, bound
 
@@ -421,7 +429,7 @@ class Gen:
             while src[0] == "slice":        # unpacking a slice crashes the compiler (inferable_item_node): C43 matter
                 src = self.expr(ed, bound)
             if r.random() < 0.3:
-                src = ("seq", r.choice(["tuple", "list"]), [self.expr(ed - 1, bound) for _ in range(r.choice([n, n, n + 1]))])
+                src = ("seq", r.choice(["tuple", "list"]), [self.expr(ed - 1, bound) for _ in range(n)])
             return ("unpack", xs, star, src), bound | set(xs)
         if k == "del":
             if bound and r.random() < 0.5:
@@ -450,6 +458,51 @@ class Gen:
             body, _ = self.block(d - 1, bound | ({v} if v is not None else set()), inloop)
             return ("with", cm, v, body), bound
         raise ValueError(k)
+
+
+def terminates(s):
+    """control never reaches the statement after s (the compiler crashes on generator expressions in code it
+    has found unreachable - a C43 matter - so blocks end there)"""
+    t = s[0]
+    if t in ("ret", "break", "continue", "raise"):
+        return True
+    blk = lambda b: bool(b) and terminates(b[-1])
+    if t == "if":
+        return blk(s[2]) and blk(s[3])
+    if t == "try":
+        return (blk(s[1]) or blk(s[5] or [])) and blk(s[4])
+    if t == "fin":
+        return blk(s[1]) or blk(s[2])
+    if t == "with":
+        return False
+    if t in ("for", "while"):
+        return False
+    return False
+
+
+def captured_locals(x, inside=False, acc=None):
+    """locals referenced inside comprehension / generator scopes"""
+    acc = set() if acc is None else acc
+    if isinstance(x, (tuple, list)):
+        if x and x[0] == "loc" and inside and len(x) == 2:
+            acc.add(x[1])
+        ins = inside or (bool(x) and x[0] in ("comp", "dcomp", "genexp"))
+        for y in x:
+            captured_locals(y, ins, acc)
+    return acc
+
+
+def fix_dels(x, cap):
+    if isinstance(x, list):
+        return [fix_dels(y, cap) for y in x]
+    if isinstance(x, tuple):
+        if x and x[0] == "delloc" and x[1] in cap:
+            return ("expr", ("loc", x[1]))
+        return tuple(fix_dels(y, cap) for y in x)
+    return x
+
+
+NOCALL = ("not", "in", "chain", "fstr", "seq", "dict", "set", "comp", "dcomp", "genexp")
 
 
 def E(e):
@@ -499,7 +552,7 @@ def E(e):
             return "list(%s %s)" % (E(e[4]), tail)
         return ("[%s %s]" if e[1] == "list" else "{%s %s}") % (E(e[4]), tail)
     if t == "fstr":
-        return "f'" + "-".join("{%s%s}" % (E(x).replace("'", '"'), e[2]) for x in e[1]) + "'"
+        return "f'" + "-".join("{(%s)%s}" % (E(x).replace("'", '"'), e[2]) for x in e[1]) + "'"
     if t == "in":
         return "(%s %s %s)" % (E(e[2]), "not in" if e[1] else "in", E(e[3]))
     if t == "chain":
@@ -657,6 +710,58 @@ def c_ranges(c_text, modname, funcs):
     return out
 
 
+PREFILTER = r"""
+import sys, os, io, re, json
+import pyload; pyload.install()
+from Cython.Compiler import Main, Options
+pyload.assert_sources()
+spec = json.load(sys.stdin)
+d = dict(Options.get_directive_defaults()); d["language_level"] = 3
+os.makedirs("pre", exist_ok=True)
+out = {}
+for name, src in spec:
+    p = os.path.join("pre", name + ".py")
+    open(p, "w").write("from c35rt import Inject\n\n" + src)
+    opts = Main.CompilationOptions(Main.default_options, compiler_directives=d, output_file=p[:-3] + ".c")
+    err = io.StringIO(); old = sys.stderr; sys.stderr = err
+    try:
+        try:
+            r = Main.compile(p, opts); ok = r.num_errors == 0
+        except BaseException as e:
+            ok = False; err.write("CRASH %r" % (e,))
+    finally:
+        sys.stderr = old
+    txt = err.getvalue()
+    m = re.findall(r"^[^\n]*\.py:\d+:\d+: ((?!Unreachable)[^\n]*)", txt, re.M)
+    out[name] = [ok, (("CRASH " + txt[-160:]) if "CRASH" in txt else (m[0] if m else txt[-160:])) if not ok else ""]
+    for ext in (".c", ".py"):
+        try: os.unlink(p[:-3] + ext)
+        except OSError: pass
+print(json.dumps(out))
+"""
+
+
+def prefilter(ctx, progs):
+    """compile every program on its own (one warmed-up compiler process): programs the compiler rejects or
+    crashes on are outside this property (C43) and are dropped with a note"""
+    r = cybuild.run_script(PREFILTER, os.path.join(ctx.workdir, "pre"),
+                           stdin_obj=[[fn, func_source(fn, body)] for fn, body, _ in progs], name="c35_prefilter.py")
+    if r["json"] is None:
+        raise RuntimeError("prefilter failed: " + (r["err"] or r["out"])[-800:])
+    keep = []
+    for fn, body, core in progs:
+        ok, why = r["json"][fn]
+        if ok:
+            keep.append((fn, body, core))
+        else:
+            ctx.strata["compiler_rejected"] = ctx.strata.get("compiler_rejected", 0) + 1
+            if len(ctx.notes) < 12:
+                ctx.note("dropped %s (compiler rejects it, outside C35): %s" % (fn, why[:160]))
+            if core:
+                ctx.corr_break("core_program_rejected", {"source": func_source(fn, body)}, why[:300], "compiles")
+    return keep
+
+
 def build_all(ctx, name, source, workdir, with_ledger=False):
     """translate once, compile twice (plain / CYTHON_REFNANNY=1); refnanny rebuilt from refnanny.pyx"""
     os.makedirs(workdir, exist_ok=True)
@@ -787,7 +892,9 @@ def run(ctx):
     for i in range(n_wide):
         g = Gen(rng, False)
         body, _ = g.block(2, set(), False, n=rng.randrange(2, 5))
+        body = fix_dels(body, captured_locals(body))
         progs.append(("w%03d" % i, body, False))
+    progs = prefilter(ctx, progs)
     chunks = [progs[i:i + 120] for i in range(0, len(progs), 120)]
     for ci, chunk in enumerate(chunks):
         run_chunk(ctx, "c35m%d" % ci, chunk, maxk, with_ledger=(ci == 0))
@@ -806,7 +913,7 @@ def run_chunk(ctx, name, chunk, maxk, with_ledger=False):
     try:
         c_file = build_all(ctx, name, source, wd, with_ledger)
     except cybuild.BuildError as e:
-        if len(chunk) > 1 and len(name) < 12:
+        if len(chunk) > 1 and len(name) < 8 and e.stage != "cc":
             # a compiler crash / rejected program is outside this property: bisect to keep the other programs
             h = len(chunk) // 2
             run_chunk(ctx, name + "a", chunk[:h], maxk, with_ledger)
